@@ -4,8 +4,11 @@
 package main
 
 import (
+	"encoding/json"
 	"fmt"
 	"io"
+	"os"
+	"path/filepath"
 	"sort"
 	"strings"
 	"time"
@@ -238,7 +241,7 @@ func main() {
 	a := vh.ParseArgs()
 	rng := vh.NewRng(a.Seed)
 	rep := vh.NewReport(a, "histories of Add/Del/Lookup/Cmd-dispatch over names from {a,b,c}^(1..3) (+\"\" and longer names); "+
-		"part 1 bounded-exhaustive: every table of <=1 name, every pair of names (quick: of length <=2; thorough: all 741 pairs), sampled tables of 3..5 names, all 40 prefixes looked up before and after a deletion; "+
+		"part 0 corpus/C37/*.json (exact histories of past findings) run first; part 1 bounded-exhaustive: every table of <=1 name, every pair of names (quick: of length <=2; thorough: all 741 pairs), sampled tables of 3..5 names, all 40 prefixes looked up before and after a deletion; "+
 		"part 2 PRNG histories; a history is non-trivial when it contains >=1 lookup with >=1 registered command sharing the first byte; distinct by SHA-256 of the op list")
 	ir = fast.New()
 	ir.Comp.Globals.Stderr = io.Discard
@@ -255,6 +258,19 @@ func main() {
 	prefixes := append([]string{""}, names...)
 	var hist [][]op
 	nextID := 1
+	// part 0: corpus (exact inputs of past findings, e.g. DESIGN section 7 #7 "env"/"environ"), run first
+	nCorpus := 0
+	if dir := os.Getenv("VERIF_DIR"); dir != "" {
+		files, _ := filepath.Glob(filepath.Join(dir, "corpus", "C37", "*.json"))
+		sort.Strings(files)
+		for _, f := range files {
+			var ops []op
+			if b, err := os.ReadFile(f); err == nil && json.Unmarshal(b, &ops) == nil && len(ops) > 0 {
+				hist = append(hist, ops)
+				nCorpus++
+			}
+		}
+	}
 	mk := func(tbl []string, r *vh.Rng) []op {
 		var ops []op
 		perm := append([]string(nil), tbl...)
@@ -287,7 +303,7 @@ func main() {
 			}
 		}
 	}
-	nExh := len(hist)
+	nExh := len(hist) - nCorpus
 	// triples: sampled (quick: 300, thorough: 6000)
 	nTriples := 300
 	nRand := 400
@@ -357,5 +373,6 @@ func main() {
 	}
 	cw.Close()
 	rep.Extra["exhaustive_tables_upto2"] = nExh
+	rep.Extra["corpus_histories"] = nCorpus
 	rep.Write()
 }
